@@ -6,6 +6,13 @@ Buffers are `List Nat` holding bytes (< 256).  Reads use `getD i 0`; callers of 
 C API guarantee 13 / 5 / 42 bytes and the harness always supplies exactly that,
 so an out-of-range read never happens on either side.  C `unsigned int`
 arithmetic that can wrap is modelled modulo 2^32 (`u32`).
+
+Encoders return `(result, buffer after the call)`, written statement by statement like the C
+code (early `return FALSE` = `(false, b)` with the buffer as it is at that point), so that
+"refusal leaves the buffer unmodified" is a statement about the model and not a convention.
+Decoders return `Option value`: the C functions store to `*pid` / `*time` only after the last
+check (`CLEAR (*pid)` comes after the error test), `none` = FALSE with nothing stored; the
+harness prints `false-but-modified` if the real code ever stores before refusing.
 -/
 namespace Zvbi.Codec
 open Zvbi.Hamm
@@ -52,40 +59,40 @@ def decodeDvbPdc (b : Buf) : Option Pid :=
   else some { channel := VBI_PID_CHANNEL_PDC_DESCRIPTOR,
               pil := ((bt b 2 &&& 0x0F) <<< 16) + (bt b 3 <<< 8) + bt b 4, mi := 1 }
 
-/-- `vbi_encode_vps_cni`: `none` = FALSE (buffer untouched) -/
-def encodeVpsCni (b : Buf) (cni : Nat) : Option Buf :=
-  if cni > 0x0FFF then none else
+/-- `vbi_encode_vps_cni`: returns (result, buffer after the call); `false` = FALSE -/
+def encodeVpsCni (b : Buf) (cni : Nat) : Bool × Buf :=
+  if cni > 0x0FFF then (false, b) else
   let b := b.set 8 (u8 ((bt b 8 &&& 0x3F) ||| (cni &&& 0xC0)))
   let b := b.set 10 (u8 ((bt b 10 &&& 0xFC) ||| (cni >>> 10)))
   let b := b.set 11 (u8 ((cni &&& 0x3F) ||| ((cni >>> 2) &&& 0xC0)))
-  some b
+  (true, b)
 
-/-- `vbi_encode_vps_pdc` -/
-def encodeVpsPdc (b : Buf) (pid : Pid) : Option Buf :=
-  if pid.pty > 0xFF then none else
-  if pid.pcsAudio > 3 then none else
+/-- `vbi_encode_vps_pdc`: returns (result, buffer after the call) -/
+def encodeVpsPdc (b : Buf) (pid : Pid) : Bool × Buf :=
+  if pid.pty > 0xFF then (false, b) else
+  if pid.pcsAudio > 3 then (false, b) else
   let pil := pid.pil
-  if pil > 0xFFFFF then none else
+  if pil > 0xFFFFF then (false, b) else
   match encodeVpsCni b pid.cni with
-  | none => none
-  | some b =>
-    let b := b.set 2 (u8 ((bt b 2 &&& 0x3F) ||| (pid.pcsAudio <<< 6)))
+  | (false, b) => (false, b)
+  | (true, b) =>
+    let b := b.set 2 (u8 ((bt b 2 &&& 0x3F) ||| u32 (pid.pcsAudio <<< 6)))
     let b := b.set 8 (u8 ((bt b 8 &&& 0xC0) ||| ((pil >>> 14) &&& 0x3F)))
     let b := b.set 9 (u8 (pil >>> 6))
     let b := b.set 10 (u8 ((bt b 10 &&& 0x03) ||| u32 (pil <<< 2)))
     let b := b.set 12 (u8 pid.pty)
-    some b
+    (true, b)
 
-/-- `vbi_encode_dvb_pdc_descriptor` -/
-def encodeDvbPdc (b : Buf) (pid : Pid) : Option Buf :=
+/-- `vbi_encode_dvb_pdc_descriptor`: returns (result, buffer after the call) -/
+def encodeDvbPdc (b : Buf) (pid : Pid) : Bool × Buf :=
   let pil := pid.pil
-  if pil > 0xFFFFF then none else
+  if pil > 0xFFFFF then (false, b) else
   let b := b.set 0 0x69
   let b := b.set 1 3
   let b := b.set 2 (u8 (0xF0 ||| (pil >>> 16)))
   let b := b.set 3 (u8 (pil >>> 8))
   let b := b.set 4 (u8 pil)
-  some b
+  (true, b)
 
 /-- `vbi_decode_teletext_8301_cni`: `vbi_rev16p (buffer + 9)` -/
 def decode8301Cni (b : Buf) : Nat := rev8 (bt b 9) * 256 + rev8 (bt b 10)
